@@ -2,7 +2,8 @@
 
 The utilities split the text with splitlines(keepends=True), accumulate the lengths of
 the pieces and compare an offset with the running total: additions and comparisons only;
-the characters are never looked at.  What they return for an offset depends on which
+the characters are not meant to be looked at (line contents are enumerated over letters
+and blanks, so a variant that strips or tests characters is told apart).  What they return for an offset depends on which
 line the offset lies in, whether it sits at the line's start, inside it, on its line
 break or at the very end of the text, and on whether the text ends with a line break:
 an order-and-adjacency type.  Texts of up to three lines with contents of length 0, 1
@@ -23,14 +24,17 @@ from .repo import Repo
 PAIRS_REL = "src/pest/pairs.py"
 
 
-def texts(max_lines: int = 3):
+CONTENTS = ("", "a", " ", "ab", "a ", " a")  # lengths 0..2 over {letter, blank}: a utility that strips or tests characters is told apart
+
+
+def texts(max_lines: int = 3, thorough: bool = False):
     seen = set()
     for k in range(0, max_lines + 1):
-        for lens in itertools.product((0, 1, 2), repeat=k):
+        for lens in itertools.product(CONTENTS if k < 3 or thorough else ("", "a", "ab"), repeat=k):
             for final_break in (True, False):
                 parts = []
                 for i, ln in enumerate(lens):
-                    parts.append("abcdefgh"[i * 2: i * 2 + ln])
+                    parts.append(ln)
                     if i < k - 1 or final_break:
                         parts.append("\n")
                 t = "".join(parts)
@@ -58,7 +62,7 @@ def ref_lines(text: str, a: int, b: int) -> list[str]:
     return pieces[la - 1: lb]
 
 
-def check_lines(repo: Repo, where: str) -> tuple[int, list[tuple[str, str]]]:  # noqa: PLR0912
+def check_lines(repo: Repo, where: str, thorough: bool = False) -> tuple[int, list[tuple[str, str]]]:  # noqa: PLR0912
     cm = ClassModel(repo, PAIRS_REL, where, max_steps=50000)
     for need in ("Position", "Span", "Pair"):
         if need not in cm.classes:
@@ -73,7 +77,7 @@ def check_lines(repo: Repo, where: str) -> tuple[int, list[tuple[str, str]]]:  #
             bad.append((f"{acc} raises", f"{desc}: {err}"))
             return False, None
 
-    for text in texts():
+    for text in texts(thorough=thorough):
         for p in range(len(text) + 1):
             n += 1
             desc = f"text {text!r}, offset {p}"
